@@ -6,6 +6,7 @@ C06 driver.  Case lines (REC as in C05: NAME/TYPE/CLS/TTL/RDATA):
   vk NOW KPROOF KEY SIG NAME TYPE ORC REC*     → `ok P TTL|none` | `err P`    (verify_rrset_with_dnskey)
   begin [ta=ALG:PK,…] [pos=LO:HI] [neg=LO:HI]  → resets the validation cache (ta: trust anchors, harness only)
   h NOW INST CK KEYS SIG NAME TYPE ORCS REC*   → `fresh|cached P ttl… sig P TTL` (verify_rrsets via send)
+  hf …same…                                    → the same for the model of the repaired cache (validateFixed)
   end
 KEY  = OWNER;FLAGS;ALG;PUBKEYHEX        KEYS = KEY;PROOF|KEY;PROOF|…  (`-` = none)
 SIG  = OWNER;CLS;TTL;TC;ALG;LABELS;OTTL;EXP;INC;TAG;SIGNER;SIGHEX
@@ -111,7 +112,9 @@ def step (s : State) (toks : List String) : State × String :=
     | some c => ({ cache := [], cfg := c }, "begin")
     | none => (s, "bad-op")
   | ["end"] => ({}, "end")
-  | "h" :: now :: inst :: ck :: keys :: sg :: name :: ty :: orcs :: recs =>
+  | op :: now :: inst :: ck :: keys :: sg :: name :: ty :: orcs :: recs =>
+    -- `h`: the cache as it is; `hf`: the repaired cache (repo-patches/C06-validation-cache-cap-lifetime.diff)
+    if op != "h" && op != "hf" then (s, "bad-op") else
     let r : Option (State × String) := do
       let now ← now.toNat?; let inst ← inst.toNat?; let ck ← parseHex ck
       let keys ← parseKeys keys; let sg ← parseSig sg
@@ -123,7 +126,8 @@ def step (s : State) (toks : List String) : State × String :=
         sig == sg.sig && table.any (fun (k', o) => k' == k && o == some tbs)
       let req : Request := { ck, dnskeys := keys, rrsig := sg, keyName := name.toLowercase,
                              keyType := ty, records := recs, now, inst }
-      let (c', v, fresh) := validate oracle s.cfg s.cache req
+      let (c', v, fresh) :=
+        if op == "hf" then validateFixed oracle s.cfg s.cache req else validate oracle s.cfg s.cache req
       let ttls := " ".intercalate (recs.map fun r => toString (updatedTtl v r.ttl))
       let sigOut :=
         if v.isOk then s!"{showProof v.proof} {updatedTtl v sg.ttl}" else s!"N {sg.ttl}"
